@@ -26,26 +26,27 @@ mod proofs {
     use super::*;
     const N: usize = 10;
 
-    macro_rules! hostile { ($name:ident, $ty:ty, $unwind:expr) => {
+    macro_rules! hostile { ($name:ident, $ty:ty, $unwind:expr) => { hostile!($name, $ty, $unwind, N); };
+      ($name:ident, $ty:ty, $unwind:expr, $n:expr) => {
         #[kani::proof]
         #[kani::stub(core::str::from_utf8, crate::verif_common::model_from_utf8)]
         #[kani::stub(alloc::vec::from_elem, bounded_from_elem)]
         #[kani::unwind($unwind)]
         fn $name() {
-            let b: [u8; N] = kani::any();
+            let b: [u8; $n] = kani::any();
             let mut rd = Src::new(b);
             let ok = consume(run(<$ty>::read_from_buffer(&mut rd)));
-            assert!(rd.pos <= N, "decoder never reads past the data it was given");
+            assert!(rd.pos <= $n, "decoder never reads past the data it was given");
             kani::cover!(ok, "some byte string decodes");
             kani::cover!(!ok, "some byte string is rejected");
         }
     } }
     hostile!(hostile_handshake, hand_in::HandshakePacket, 14);
-    hostile!(hostile_login_start, login_in::LoginStartPacket, 20);
+    hostile!(hostile_login_start, login_in::LoginStartPacket, 22, 18);
     hostile!(hostile_encryption_response, login_in::EncryptionResponsePacket, 14);
     hostile!(hostile_login_cookie_response, login_in::CookieResponsePacket, 14);
     hostile!(hostile_client_information, conf_in::ClientInformationPacket, 14);
-    hostile!(hostile_resource_pack_response, conf_in::ResourcePackResponsePacket, 20);
+    hostile!(hostile_resource_pack_response, conf_in::ResourcePackResponsePacket, 22, 18);
 
     /// string / byte-array readers: negative, zero, exact, over-long and huge length prefixes
     #[kani::proof]
@@ -88,7 +89,7 @@ mod proofs {
         assert!(rd.pos == 5, "nothing is consumed beyond the length prefix");
     }
 
-    /// primitives on arbitrary bytes
+    /// primitives on arbitrary bytes (the u16-prefixed text component allocates at most 64 KiB by construction and is not run here)
     #[kani::proof]
     #[kani::stub(core::str::from_utf8, crate::verif_common::model_from_utf8)]
     #[kani::stub(alloc::vec::from_elem, bounded_from_elem)]
@@ -101,8 +102,7 @@ mod proofs {
             0 => { consume(run(rd.read_varint())); }
             1 => { consume(run(rd.read_varlong())); }
             2 => { consume(run(rd.read_bool())); }
-            3 => { consume(run(rd.read_uuid())); }
-            _ => { kani::assume(b[0] == 0x08); consume(run(rd.read_text_component())); } // TAG_String arm; NBT parsing is fastnbt's
+            _ => { consume(run(rd.read_uuid())); }
         }
         assert!(rd.pos <= 18);
     }
